@@ -165,36 +165,44 @@ package host
 //@ func (*Set).ReplaceAll
 //@   prop C15
 //@   requires setok(set) && cachefresh(set) && forall k int :: 0 <= k && k < len(hosts) ==> hosts[k] != nil
+//@   requires @one-host-per-address-in-a-call forall a int, b int :: 0 <= a && a < b && b < len(hosts) ==> hosts[a].Addr != hosts[b].Addr
 //@   modifies mapof(set.all), mapof(set.healthyMain), mapof(set.healthyBackup), aval, heap("#closed")
+//@   ensures @usable-hosts-are-current-members old(tiersinall(set)) ==> tiersinall(set)
 //@   ensures @cache-describes-the-current-tier cachefresh(set)
-//@   loop 0 invariant setok(set) && cachefresh(set) && set.all == old(set.all) && set.healthyMain == old(set.healthyMain) && set.healthyBackup == old(set.healthyBackup) && (forall k int :: 0 <= k && k < len(hosts) ==> hosts[k] != nil)
+//@   loop 0 invariant (old(tiersinall(set)) ==> tiersinall(set)) && setok(set) && cachefresh(set) && set.all == old(set.all) && set.healthyMain == old(set.healthyMain) && set.healthyBackup == old(set.healthyBackup) && (forall k int :: 0 <= k && k < len(hosts) ==> hosts[k] != nil)
 
 //@ func (*Set).Add
 //@   prop C15
 //@   requires setok(set) && cachefresh(set) && forall k int :: 0 <= k && k < len(hosts) ==> hosts[k] != nil
+//@   requires @one-host-per-address-in-a-call forall a int, b int :: 0 <= a && a < b && b < len(hosts) ==> hosts[a].Addr != hosts[b].Addr
 //@   modifies mapof(set.all), mapof(set.healthyMain), mapof(set.healthyBackup), aval
+//@   ensures @usable-hosts-are-current-members old(tiersinall(set)) ==> tiersinall(set)
 //@   ensures @cache-describes-the-current-tier cachefresh(set) && setok(set)
 
 //@ func (*Set).Remove
 //@   prop C15
 //@   requires setok(set) && cachefresh(set) && forall k int :: 0 <= k && k < len(hosts) ==> hosts[k] != nil
 //@   modifies mapof(set.all), mapof(set.healthyMain), mapof(set.healthyBackup), aval, heap("#closed")
+//@   ensures @usable-hosts-are-current-members old(tiersinall(set)) ==> tiersinall(set)
 //@   ensures @cache-describes-the-current-tier cachefresh(set)
 
 //@ func (*Set).MarkHostHealthy
 //@   prop C15
 //@   requires setok(set) && cachefresh(set) && host != nil && host.Stats != nil
 //@   modifies mapof(set.healthyMain), mapof(set.healthyBackup), aval, atomu64, atombool
+//@   ensures @usable-hosts-are-current-members old(tiersinall(set)) ==> tiersinall(set)
 //@   ensures @cache-describes-the-current-tier cachefresh(set)
 
 //@ func (*Set).MarkHostUnhealthy
 //@   prop C15
 //@   requires setok(set) && cachefresh(set) && host != nil && host.Stats != nil
 //@   modifies mapof(set.healthyMain), mapof(set.healthyBackup), aval, atomu64, atombool
+//@   ensures @usable-hosts-are-current-members old(tiersinall(set)) ==> tiersinall(set)
 //@   ensures @cache-describes-the-current-tier cachefresh(set)
 
 //@ func NewSet
 //@   prop C15
 //@   requires forall k int :: 0 <= k && k < len(hosts) ==> hosts[k] != nil
+//@   requires @one-host-per-address-in-a-call forall a int, b int :: 0 <= a && a < b && b < len(hosts) ==> hosts[a].Addr != hosts[b].Addr
 //@   modifies aval
 //@   ensures @well-formed result != nil && fresh(result) && setok(result) && (len(hosts) > 0 ==> cachefresh(result))
